@@ -640,13 +640,13 @@ def build_lsc(d: dict):
 def build_level(lv: dict, problem):
     e = lv["engine"]
     lsc = build_lsc(lv["lsc"])
-    if e in EA_CLASSES:
+    if e in EA_CLASSES or e == "custom_ea":
         kw = {}
         for k in ("mutation_std", "p_mutation", "k_elites", "p_crossover", "mutation_std_step", "election_group_size"):
             if k in lv:
                 kw[k] = lv[k]
-        return EALevelConfig(
-            ea_class=EA_CLASSES[e],
+        return (userdefs.TaggedEAConfig if e == "custom_ea" else EALevelConfig)(
+            ea_class=EA_CLASSES.get(e, _sea.SEA),
             pop_size=lv["pop"],
             problem=problem,
             lsc=lsc,
@@ -771,8 +771,8 @@ def build_config(desc: dict, ctx: Ctx) -> TreeConfig:
     sprout = build_sprout(desc["sprout"])
     options = dict(desc.get("options", {}))
     kw = {}
-    if any(lv["engine"] == "custom" for lv in desc["levels"]):
-        kw["config_class_to_deme_class"] = {userdefs.RandomSearchConfig: userdefs.RandomSearchDeme}
+    if any(lv["engine"] in ("custom", "custom_ea") for lv in desc["levels"]):
+        kw["config_class_to_deme_class"] = {userdefs.RandomSearchConfig: userdefs.RandomSearchDeme, userdefs.TaggedEAConfig: userdefs.TaggedEADeme}
     return TreeConfig(levels, gsc, sprout, options=options, **kw)
 
 
